@@ -136,7 +136,7 @@ func c08Run(c *Ctx, idx int, k c08Case) {
 		ok := waitFor(func() bool {
 			n := 0
 			for _, x := range bed.Cluster.Hosts[k.Hosts-1].Conns() {
-				if !x.Registered && x.Version != 0 {
+				if !x.IsRegistered() && x.Ver() != 0 {
 					n++
 				}
 			}
